@@ -201,10 +201,13 @@ end
 def mapLookup (m : List (Str × Str)) (k : Str) : Option Str :=
   (m.reverse.find? fun kv => kv.1 == k).map (·.2)
 
-/-- `relink` for one shape link: links that are keys of the map become `Rel(Dir(file cur), file target)` -/
-def relinkOne (m : List (Str × Str)) (cur link : Str) : Option Str :=
-  match mapLookup m link, mapLookup m cur with
+/-- `relink` for one shape link: a link whose key is in the map becomes `Rel(Dir(file cur), file target)`;
+    `key` is what is compared with the map keys, `link` the value left in place otherwise -/
+def relinkOneK (m : List (Str × Str)) (cur key link : Str) : Option Str :=
+  match mapLookup m key, mapLookup m cur with
   | some v, some c => rel (dir c) v
   | _, _ => some link
+
+def relinkOne (m : List (Str × Str)) (cur link : Str) : Option Str := relinkOneK m cur link link
 
 end D2V.Path
